@@ -377,7 +377,9 @@ def oracle_world(w):
                     if rows[0]["state"] != "x":
                         sig = "winning-message-not-valid"
                     elif str(rows[0]["epoch"]) != str(e["parent_epoch"]):
-                        sig = "receiver-epoch-tag"          # filed under the receiver's epoch, not the message's own
+                        # received copies are filed under the receiver's epoch (open finding); the SENDER's own copy
+                        # is filed by create_message under its creation epoch and must keep it
+                        sig = "own-message-refiled" if c == e["sender"] else "receiver-epoch-tag"
                     elif any(x["signature"] == "rewrapped-commit-rollback" for x in fails):
                         sig = "rewrapped-commit-rollback"   # correctly tagged, but the client was knocked back by a re-wrapped commit
                     else:
